@@ -34,12 +34,15 @@ CLASSES = [
          {"name": "quiet", "type": "int", "read": True, "write": True, "notify": None},
          {"name": "wo", "type": "int", "read": False, "write": True, "notify": None},
          {"name": "g", "type": "VGadget", "read": True, "write": True, "notify": "gChanged"},
+         # two properties announced by ONE notify signal (as QAction's text / enabled / visible / ... all are by changed())
+         {"name": "m1", "type": "int", "read": True, "write": True, "notify": "multiChanged"},
+         {"name": "m2", "type": "int", "read": True, "write": True, "notify": "multiChanged"},
      ],
      "signals": [
          ("toggled", ["bool"], "void"), ("iChanged", ["int"], "void"), ("uChanged", [], "void"), ("dChanged", ["double"], "void"),
          ("sChanged", ["QString"], "void"), ("eChanged", [], "void"), ("fChanged", [], "void"), ("lvChanged", [], "void"),
          ("nextChanged", [], "void"), ("namesChanged", [], "void"), ("numsChanged", [], "void"), ("dataChanged", [], "void"),
-         ("roChanged", ["int"], "void"), ("gChanged", [], "void"),
+         ("roChanged", ["int"], "void"), ("gChanged", [], "void"), ("multiChanged", [], "void"),
          ("fired", [], "void"), ("fired2", ["int", "QString"], "void"),
          ("picked", [], "void"), ("picked", ["int"], "void"), ("picked", ["int", "bool"], "void"),
          ("changed", ["int"], "void"), ("changed", ["QString"], "void"),
